@@ -452,7 +452,7 @@ pub fn run(ctx: &mut Ctx) {
     // random sequences n <= 12 mixing catalogue fragments, well-formed values and mutated strings
     let mut rng = ctx.rng(0xC08);
     let gens: Vec<StrGen> = ALL_FMT.iter().map(|f| StrGen::new(*f)).collect();
-    let n = ctx.share(300_000, 6_000_000);
+    let n = ctx.share(1_000_000, 10_000_000);
     for i in 0..n {
         if ctx.out_of_time() {
             ctx.report.inconclusive.push(format!("random sequence workload cut at {} of {}", i, n));
